@@ -1,5 +1,5 @@
 (* C02 -- async mutex: at most one guard exists at any time.  Statements only. *)
-From FI Require Import Base Mutex MutexSpec MutexProofs.
+From FI Require Import Base Mutex MutexSpec MutexProofs MutexMonProofs.
 
 (* In every reachable state (any number of lock futures, either fairness mode, any
    contract-respecting history) at most one guard is alive, and the mutex is marked
@@ -41,7 +41,16 @@ Example C02_witness :
     [[R_UNIT]; [R_UNIT]; [R_READY]; [R_PENDING]; [R_UNIT]; [R_READY]].
 Proof. vm_compute. repeat split; reflexivity. Qed.
 
+(* The boolean monitor the check evaluates on the real crate's traces (at most one guard, a
+   grant only while no guard is alive, is_locked() exact, the number of guard objects) holds on
+   every contract-respecting history of the model. *)
+Theorem C02_monitor : forall k b ops,
+  legal_run (init k b) ops ->
+  mm_good (fold_left mon02_step (trace (init k b) ops) mmon0) = true.
+Proof. exact mon02_holds. Qed.
+
 Print Assumptions C02_guards_le_1.
 Print Assumptions C02_grant_only_when_free.
 Print Assumptions C02_guard_count.
 Print Assumptions C02_is_locked_exact.
+Print Assumptions C02_monitor.
